@@ -20,7 +20,7 @@ Log == ndJsonDeserialize("io.ndjson")
 Modelled(rec) == rec.fam \in Fams
 CaseOf(rec)   == [fam |-> rec.fam, d |-> rec.c]
 WFObs(o)      == "status" \in DOMAIN o
-WF(rec) == /\ rec.fam \in Fams \cup {"lib", "prog"}
+WF(rec) == /\ rec.fam \in Fams \cup {"lib", "prog"} /\ "selftest" \in DOMAIN rec
            /\ WFObs(rec.inproc) /\ DOMAIN rec.pipe = DOMAIN rec.inproc /\ DOMAIN rec.file = DOMAIN rec.inproc
            /\ Modelled(rec) => IsCase(CaseOf(rec))
 
@@ -32,6 +32,20 @@ Suffix(rec, f) == IF f \in DiffersOn(rec, "pipe") /\ f \in DiffersOn(rec, "file"
                   THEN (IF rec.pipe[f] = rec.file[f] THEN "" ELSE "@transports-disagree")
                   ELSE IF f \in DiffersOn(rec, "pipe") THEN "@pipe" ELSE "@file"
 
+\* A field nothing in the model explains is named by the case - reduced to the smallest logged case of the same family
+\* that deviates from the base only where this one does and fails in the same field (so that one defect seen through
+\* twenty pairs of deviations has one identity).  Self-test records are never roots.
+FailsOn(r, f) == f \in DOMAIN r.inproc /\ (r.pipe[f] # r.inproc[f] \/ r.file[f] # r.inproc[f])
+Within(c1, c2) == c1.fam = c2.fam /\ \A k \in DimSet(c1.fam) : c1.d[k] = Base[c1.fam][k] \/ c1.d[k] = c2.d[k]
+Roots(rec, f) == {j \in 1..Len(Log) : /\ Log[j].selftest = "" /\ Log[j].fam = rec.fam /\ WF(Log[j])
+                                       /\ Within(CaseOf(Log[j]), CaseOf(rec)) /\ FailsOn(Log[j], f)}
+RootDev(rec, f) ==
+    LET rs  == Roots(rec, f)
+        sz(j) == Cardinality(Deviations(CaseOf(Log[j])))
+        min == {j \in rs : \A k \in rs : sz(j) <= sz(k)}
+        names == {DevStr(CaseOf(Log[j]), 1, "") : j \in min}
+    IN IF Cardinality(names) = 1 THEN CHOOSE x \in names : TRUE ELSE DevStr(CaseOf(rec), 1, "")
+
 Keys(rec) ==
     LET fs == DiffersOn(rec, "pipe") \cup DiffersOn(rec, "file")
     IN IF fs = {} THEN {}
@@ -40,7 +54,9 @@ Keys(rec) ==
                 oi == ObsI(c)
                 eo == [e \in Edges |-> ObsC(c, "pipe", {e})]
                 oa == ObsC(c, "pipe", AsIs)
-            IN {rec.fam \o "/" \o f \o "/" \o Cause(c, f, oi, eo, oa) \o Suffix(rec, f) : f \in fs}
+                cause(f) == LET k == Cause(c, f, oi, eo, oa)
+                            IN IF k = "unexplained" THEN "unexplained/" \o RootDev(rec, f) ELSE k
+            IN {rec.fam \o "/" \o f \o "/" \o cause(f) \o Suffix(rec, f) : f \in fs}
 
 Judge(rec, idx) == IF ~WF(rec) THEN {[idx |-> idx, key |-> "not-a-case"]}
                    ELSE {[idx |-> idx, key |-> k] : k \in Keys(rec)}
